@@ -109,3 +109,138 @@ def c01_structure(prog):
     out.append(GroundOb("C01.struct.enumerated-alias", isinstance(en, ast.Name) and en.id == "AvpInteger32",
                         "AvpEnumerated is not an alias of AvpInteger32", backend="ast"))
     return out
+
+
+def _all_message_classes():
+    base = real("diameter.message._base")
+    cmds = real("diameter.message.commands")
+    seen = []
+
+    def walk(c):
+        for s in c.__subclasses__():
+            if s not in seen:
+                seen.append(s)
+                walk(s)
+    walk(base.Message)
+    return base, cmds, seen
+
+
+def c02_registry(prog):
+    """C02.reg[*] / C02.tf[*]: the registry maps each command code to a class with that code; type_factory
+    returns the Request class iff the R bit is set (exhaustive over the registry x {R=0, R=1})."""
+    base, cmds, classes = _all_message_classes()
+    out = []
+    for code, cls in sorted(cmds.all_commands.items()):
+        probs = []
+        if cls.code != code:
+            probs.append(f"registered under {code} but class code is {cls.code}")
+        for r in (0, 1):
+            hdr = base.MessageHeader(command_flags=0x80 if r else 0, command_code=code)
+            t = cls.type_factory(hdr)
+            if t is None:
+                continue
+            if not issubclass(t, cls):
+                probs.append(f"type_factory(R={r}) returns {t.__name__}, not a subclass of {cls.__name__}")
+            want = "Request" if r else "Answer"
+            if not t.__name__.endswith(want):
+                probs.append(f"type_factory(R={r}) returns {t.__name__}")
+            if t.code != code:
+                probs.append(f"{t.__name__}.code {t.code} != {code}")
+        out.append(GroundOb(f"C02.reg[{code}]", not probs, "; ".join(probs), witness={"code": code}))
+    # decoding dispatch on the real from_bytes: class of the result for every registered code x R bit
+    for code, cls in sorted(cmds.all_commands.items()):
+        probs = []
+        for r in (0, 1):
+            hdr = base.MessageHeader(length=20, command_flags=0x80 if r else 0, command_code=code)
+            try:
+                m = base.Message.from_bytes(hdr.as_bytes())
+            except Exception as e:
+                probs.append(f"from_bytes raises {e!r}")
+                continue
+            t = cls.type_factory(base.MessageHeader(command_flags=0x80 if r else 0, command_code=code)) or cls
+            if type(m) is not t:
+                probs.append(f"R={r}: decoded as {type(m).__name__}, expected {t.__name__}")
+            if m.header.command_code != code:
+                probs.append(f"R={r}: command code {m.header.command_code}")
+        out.append(GroundOb(f"C02.dispatch[{code}]", not probs, "; ".join(probs), witness={"code": code}))
+    # unknown code -> generic class
+    for code in (0, 1, 2 ** 24 - 1):
+        if code in cmds.all_commands:
+            continue
+        m = base.Message.from_bytes(base.MessageHeader(length=20, command_code=code).as_bytes())
+        out.append(GroundOb(f"C02.dispatch.unknown[{code}]", type(m) is base.UndefinedMessage, type(m).__name__))
+    return out
+
+
+def c02_structure(prog):
+    """No Message subclass overrides __init__/from_bytes/as_bytes/to_answer/find_avps; only DefinedMessage
+    overrides avps/append_avp (S3 facts used by the dispatch rule and by the opaque-constructor hook)."""
+    out = []
+    msg = prog.cls("Message")
+    for sub in msg.all_subclasses():
+        bad = [m for m in ("__init__", "from_bytes", "as_bytes", "to_answer", "find_avps") if m in sub.methods]
+        if sub.name != "DefinedMessage":
+            bad += [g for g in ("avps",) if g in sub.getters or g in sub.setters]
+            bad += [m for m in ("append_avp",) if m in sub.methods]
+        out.append(GroundOb(f"C02.struct.inherits[{sub.name}]", not bad, f"overrides {bad}", backend="ast"))
+    return out
+
+
+def c20_pairing(prog):
+    """C20.pair[*]: for every command class the answer produced from a request is an instance of the paired
+    Answer class (generic Message for commands without one), has the same command code, keeps only P and
+    leaves the request untouched - evaluated on the real classes for all 256 flag octets (exhaustive)."""
+    base, cmds, classes = _all_message_classes()
+    out = []
+    for cls in [base.Message] + classes:
+        probs = []
+        name = cls.__name__
+        for flags in range(256):
+            hdr = base.MessageHeader(version=1, command_flags=flags, command_code=getattr(cls, "code", 0) or 7,
+                                     application_id=4, hop_by_hop_identifier=0xfffffffe, end_to_end_identifier=1)
+            try:
+                req = cls(hdr)
+            except Exception as e:
+                probs.append(f"constructor raises {e!r}")
+                break
+            before = (req.header.version, req.header.command_flags, req.header.command_code, req.header.application_id,
+                      req.header.hop_by_hop_identifier, req.header.end_to_end_identifier)
+            try:
+                ans = req.to_answer()
+            except Exception as e:
+                probs.append(f"to_answer raises {e!r} for flags {flags:#x}")
+                break
+            after = (req.header.version, req.header.command_flags, req.header.command_code, req.header.application_id,
+                     req.header.hop_by_hop_identifier, req.header.end_to_end_identifier)
+            if before != after:
+                probs.append(f"request header modified for flags {flags:#x}")
+            if ans is req or ans.header is req.header:
+                probs.append("answer shares objects with the request")
+            want_flags = req.header.command_flags & 0x40
+            if ans.header.command_flags != want_flags:
+                probs.append(f"flags {req.header.command_flags:#x} -> answer flags {ans.header.command_flags:#x}, want {want_flags:#x}")
+                break
+            if (ans.header.version, ans.header.command_code, ans.header.application_id,
+                    ans.header.hop_by_hop_identifier, ans.header.end_to_end_identifier) != \
+                    (req.header.version, req.header.command_code, req.header.application_id,
+                     req.header.hop_by_hop_identifier, req.header.end_to_end_identifier):
+                probs.append(f"identifiers not mirrored for flags {flags:#x}")
+                break
+            if name.endswith("Request"):
+                stem = name[:-7]
+                parent = next((c for c in cls.__mro__ if c.__name__ == stem), None)
+                paired = None
+                if parent is not None:
+                    paired = next((s for s in parent.__subclasses__() if s.__name__ == stem + "Answer"), parent)
+                want_t = paired or base.Message
+                if type(ans) is not want_t:
+                    probs.append(f"answer class {type(ans).__name__}, expected {want_t.__name__}")
+                    break
+                if type(ans).__name__.endswith("Request"):
+                    probs.append("answer is a Request instance")
+            else:
+                if type(ans) is not cls:
+                    probs.append(f"answer class {type(ans).__name__}, expected {name}")
+                    break
+        out.append(GroundOb(f"C20.pair[{name}]", not probs, "; ".join(probs[:3]), witness={"class": name}))
+    return out
